@@ -216,6 +216,10 @@ def directed() -> List[Tuple[str, List[Dict[str, Any]]]]:
     D.append(("index-register-only-in-entry", [Cmd("array", Li(3), Li(0)), Cmd("store", Li(7), Li(0), Rg(R0)), Cmd("load", Rg(R1), Li(0), Rg(R0))]))
     D.append(("backward-loop", [Cmd("set", Rg(R2), Li(0)), Lab(1), Cmd("beq", Rg(R2), Li(2), Lb(2)), Cmd("add", Rg(R2), Rg(R2), Li(1)), Cmd("jmp", Lb(1)), Lab(2)]))
     D.append(("qalloc-literal", [Cmd("qalloc", Li(0)), Cmd("qalloc", Li(1)), Cmd("qfree", Li(0))]))
+    # constants the program itself keeps in the C bank, next to equal literals: before the set, and on a path that skips it
+    C1, C10 = 16 + 1, 16 + 10
+    D.append(("literal-before-the-constant-register-is-set", [Cmd("add", Rg(R0), Rg(R0), Li(3)), Cmd("set", Rg(C10), Li(3)), Cmd("add", Rg(R0), Rg(R0), Rg(C10)), Cmd("ret_reg", Rg(R0))]))
+    D.append(("literal-on-a-path-that-skips-the-constant-register", [Cmd("bez", Rg(R0), Lb(1)), Cmd("set", Rg(C1), Li(2)), Lab(1), Cmd("add", Rg(R1), Rg(R1), Li(2)), Cmd("array", Li(3), Li(0)), Cmd("store", Rg(R1), Li(0), Li(2)), Cmd("ret_reg", Rg(R1))]))
     D.append(("three-literals", [Cmd("addm", Rg(R0), Li(5), Li(4), Li(3))]))
     return D
 
@@ -295,6 +299,8 @@ def build_rows(tier: str):
     for k in range(n_rand):
         pressure = []
         pool = pool_small
+        if k % 5 == 1:
+            pool = [0, 1, 16 + 1, 16 + 10, 16 + 15, 48 + 2]            # registers of the other banks (constants in C, outcomes in M) next to R
         if k % 7 == 3:
             pressure = list(range(4, rng.choice([13, 14, 15])))     # 13..15 R registers named
         n = rng.choice([2, 3, 4, 5, 6, 8, 10])
